@@ -38,6 +38,8 @@ def worlds(tier):
         w.W("replan-2tasks-2strategies-havoc", w.fixed_times(w.indep(2)), w.C2, "HAVOC", split=8, havoc=dict(hv, retract=True, max_unplaced=0, max_future=1),
             tasks=small(("T0", "T1"), nstrat=2), weight=60),
         w.W("chain2-havoc-release_taskgraphs", w.fixed_times(w.chain(2)), w.C1, "HAVOC", split=6, havoc=dict(hv, release_taskgraphs=True), tasks=small(("T0", "T1"))),
+        w.W("chain2-havoc-child-planned-while-parent-runs-then-replanned", w.fixed_times(w.chain(2)), w.C2, "HAVOC", split=8, freq=1,
+            havoc=dict(hv, release_taskgraphs=True, retract=True, max_unplaced=0, max_replans=1), tasks=small(("T0", "T1")), weight=80),
         w.W("indep2-hetero-symdemand-EDF", w.indep(2, release=0), w.HETERO, "EDF", split=6, retry_loops=True,
             tasks={t: {"strategies": [{"rt": RT3, "res": {"CPU": ["sym", 0, 3]}}]} for t in ("T0", "T1")}, weight=10),
     ]
